@@ -155,6 +155,11 @@ def c15b(ctx, tu):
     n = 0
     for f, e in send_sites(tu):
         spec = LOC_SPEC.get(f.qe)
+        if spec is None and f.qe.rsplit("::", 1)[0] in ("trompeloeil::call_matcher", "trompeloeil::lifetime_monitor",
+                                                        "trompeloeil::sequence_matcher", "trompeloeil::sequence_handler"):
+            # a report sent from a member of an expectation-like object (a reporting helper merged into its
+            # caller, or a new member): it is about that object
+            spec = "expectation"
         n += 1
         if spec is None:
             ctx.ob("C15.b", f.qe, None, pattern=short_loc(e.get("loc", "")), unit=tu.name,
